@@ -209,7 +209,8 @@ def directed_wide(thorough=False):
         out.append(c("paths", 5, 0, len=3, allowChars=cjk(n), requireSets=[cjk(n)[-2:]]))
     out.append(c("tree", 0, 1, len=1, allow=15, allowChars=cjk(200)))               # classes + custom: 268 characters
     if thorough:
-        wide = [0x20000 + i for i in range(65536)] + cjk(300)
+        # (65 836 characters were tried: TLC's set algebra over such an alphabet takes longer than the per-trace time limit)
+        wide = [0x20000 + i for i in range(1000)] + cjk(300)
         out.append(c("tree", 0, 1, len=1, allowChars=wide))
         out.append(c("paths", 5, 0, len=2, allowChars=wide, requireSets=[wide[-1:]]))
     # k required sets, all but one of them satisfied by the first character of the alphabet: the all-first-index stream
